@@ -33,7 +33,7 @@ def run(ctx):
     RT.positivity_filter(ctx, "R05.b")
     RT.shared_generator(ctx, "R05.b")
     RT.enumerate_indices(ctx, "R05.b")
-    RT.counters(ctx, "R05.b")
+    RT.counters(ctx, "R05.b", check_len_inc=False)
     RS.reset_before_read(ctx, "R05.b", only_owner="store::trigram_index::TrigramIndex", floor=1)
     RR.hit_filter(ctx, "R05.c")
     # "a query that contains a letter or digit" has at least one word: strip/split classes are what their names say
